@@ -2,6 +2,7 @@ package main
 
 import (
 	"fmt"
+	"strings"
 	"go/constant"
 	"go/token"
 	"go/types"
@@ -715,6 +716,49 @@ func (t *Tr) loopMods(li *loopInfo) {
 		}
 	}
 	li.mods[compAlloc] = true
+	// ghost variables assigned by this function's ghost statements, or by contracts of callees
+	for _, pt := range []string{"after", "before"} {
+		for _, gs := range t.ghostAt[pt] {
+			inLoop := false
+			for b := range li.body {
+				for _, in := range b.Instrs {
+					if ci, ok := in.(ssa.CallInstruction); ok && calleeMatches(gs.callee, calleeName(ci.Common())) {
+						inLoop = true
+					}
+				}
+			}
+			if !inLoop {
+				continue
+			}
+			if _, err := t.baseEnv(t.entrySt).ghostVar(gs.name); err == nil {
+				li.mods["ghost:"+gs.name] = true
+			}
+		}
+	}
+	for b := range li.body {
+		for _, in := range b.Instrs {
+			ci, ok := in.(ssa.CallInstruction)
+			if !ok {
+				continue
+			}
+			var ct *Contract
+			if f := ci.Common().StaticCallee(); f != nil && inModule(f) {
+				ct = t.sp.Contracts[funcKey(f)]
+			} else if ci.Common().IsInvoke() {
+				ct = t.sp.Contracts[t.ifaceKey(ci.Common())]
+			}
+			if ct == nil {
+				continue
+			}
+			for _, m := range ct.Modifies {
+				if strings.HasPrefix(m, "ghost.") {
+					if _, err := t.baseEnv(t.entrySt).ghostVar(m[6:]); err == nil {
+						li.mods["ghost:"+m[6:]] = true
+					}
+				}
+			}
+		}
+	}
 	// make sure the components are registered in this context
 	for m := range li.mods {
 		t.ensureComp(m)
